@@ -366,5 +366,6 @@ NLikeMonotone == [][NLikeMonotoneStep]_vars
 ReturnIffDone == [][ReturnIffDoneStep]_vars
 
 \* state constraint of the model-checking configurations
-MCConstraint == nlike <= MaxPts /\ NS <= MaxBounds
+\* (nextB is bounded too: FirstBound; Restart; FirstBound; ... creates a fresh name each time)
+MCConstraint == nlike <= MaxPts /\ NS <= MaxBounds /\ nextB <= MaxBounds + 3
 =============================================================================
